@@ -607,6 +607,9 @@ def run(repo, rep, tier):  # noqa: F811 -- round-5 shape rules appended to the r
     if getattr(rep, "borrowed", False):
         return
     from ..core import round5 as _r5
+    from ..core.report import Only as _O5
+    from . import c06 as _c06b
+    _c06b._override_sibling(repo, _O5(rep, {"R06.11"}))
     _r5.override_consulted_first(repo, rep, "R06.14")
     _r5.nonempty_schema_arrays(repo, rep, "R20.9")
 
@@ -617,3 +620,6 @@ LEVEL_TEXT += _ADDR5B
 _ADDR5C = ' Borrowed: R06.14.'
 EXPLANATION += _ADDR5C
 LEVEL_TEXT += _ADDR5C
+_ADDR5D = " Borrowed: R06.11 (the schema-side override resolver tolerates every strategy form the packer's does)."
+EXPLANATION += _ADDR5D
+LEVEL_TEXT += _ADDR5D
